@@ -21,7 +21,12 @@ func MatchWildcardRegexp(query string, exact bool) *regexp.Regexp {
 	if exact {
 		return regexp.MustCompile(fmt.Sprintf("^%s$", regexpQuery))
 	}
-	return regexp.MustCompile(fmt.Sprintf("^%s", regexpQuery))
+	if strings.HasSuffix(query, "/") {
+		// the root (or a path given with a trailing slash) is a prefix of everything below it
+		return regexp.MustCompile(fmt.Sprintf("^%s", regexpQuery))
+	}
+	// the path itself or anything below it at a path element boundary: /a/b does not select /a/bc
+	return regexp.MustCompile(fmt.Sprintf(`^%s(/|\[|$)`, regexpQuery))
 }
 
 // MatchWildcardChNameRegexp creates a Regular Expression from a wild-carded path
